@@ -140,6 +140,45 @@ def rule2_block(ctx, v):
                'the waiter count is incremented only where the lock bit was tested set', loc=c.loc)
         ctx.ob('C04.2', 'myth_mutex_lock_body: seat CAS expected fresh', is_load_of(f, c.ops[1], STATE, True),
                'expected operand is the volatile load of state', loc=c.loc)
+    # "threads blocked on a mutex do not occupy a worker": an iteration that saw the lock bit set goes on to reserve a seat
+    # (and blocks when the reservation succeeds).  A path that goes round the loop without attempting the reservation is
+    # tolerated only as a bounded spin: a loop-carried counter grows on every way round the loop and the bypass is taken
+    # only while that counter is below a constant.
+    sl = [l for l in f.loads_of(STATE) if l.volatile and f.in_loop(l)]
+    held_edges = [(br, sb) for l in sl for br, sb, cb in lib.mask_tests(f, l.id, 1)]
+    ctx.ob('C04.2', 'myth_mutex_lock_body: lock bit tested in the retry loop', bool(held_edges) and bool(seat), 'if (s & 1)', loc=f.loc)
+    if held_edges and seat:
+        ok, detail = True, 'every held-iteration attempts cmpxchg(s -> s+2)'
+        for br, sb in held_edges:
+            start = f.blocks[sb].insts[0]
+            # every loop the held branch lies in: going round it without the reservation needs a bounded, advancing counter
+            for lp in [l for l in f.loops if sb in l['blocks']]:
+                hdr = f.blocks[lp['header']].insts[0]
+                inside = lambda i, lp=lp: i.block.id not in lp['blocks']
+                if not (start is hdr or hdr in f.reachable_from(start, blocked=seat, include_start=True, stop_pred=inside)):
+                    continue
+                good = None
+                for ph in [i for i in f.blocks[lp['header']].insts if i.op == 'phi' and i.ty in ('i32', 'i64')]:
+                    ds = [lib.min_delta(f, val, ph.id) for val, b in ph.d['incoming'] if b in lp['blocks']]
+                    if not ds or not all(d is not None and d >= 1 for d in ds):
+                        continue
+                    for ic in f.order:
+                        if ic.op == 'icmp' and ic.pred in ('slt', 'ult', 'sle', 'ule') and const_int(ic.ops[1]) is not None and \
+                                f.strip(ic.ops[0]) == ph.id and ic.block.id in lp['blocks']:
+                            for b2 in f.users(ic.id):
+                                if b2.op == 'br' and 'cond' in b2.d:
+                                    t0 = f.blocks[b2.d['t']].insts[0]
+                                    if not (hdr in f.reachable_from(start, blocked=list(seat) + [t0], include_start=True, stop_pred=inside)):
+                                        good = 'bounded spin: counter %s < %d' % (f.var(ph.id) or ph.id, const_int(ic.ops[1]))
+                if good is None:
+                    ok = False
+                    detail = 'the loop headed at block %d can be repeated from "lock bit set" without the seat reservation and without a ' \
+                             'counter that grows on every repetition and bounds the repetition' % lp['header']
+                elif ok:
+                    detail = good
+        ctx.ob('C04.2', 'myth_mutex_lock_body: a locker that sees the mutex held reserves a seat and blocks', ok,
+               'threads waiting for a mutex do not occupy a worker: polling a held mutex for ever starves the holder when every worker polls',
+               loc=held_edges[0][0].loc, detail=detail)
     # myth_block_on_queue itself
     g = ctx.need_fn(v, 'myth_block_on_queue')
     sw = [s for s in switch_sites(g) if s.is_swap]
@@ -170,7 +209,7 @@ def rule2_block(ctx, v):
         ctx.ob('C04.2', 'myth_block_on_queue: pops next', len(pops) == 1 and
                lib.arg_is_field_of(g, pops[0].args[0], 'myth_running_env.runnable_q'),
                'the next context comes from the worker\'s own run queue', loc=s.ins.loc)
-    ctx.floor('C04.2', 12)
+    ctx.floor('C04.2', 14)
 
 
 def rule3_unlock(ctx, v):
@@ -302,9 +341,19 @@ def rule5_ilock(ctx, fl):
     ctx.floor('C04.5', 10)
 
 
+def rule_init_complete(ctx, fl):
+    ctx.doc('C04.6', 'initialiser completeness: every field of the mutex that myth_mutex_lock_body / myth_mutex_trylock_body / myth_mutex_unlock_body read(s), directly or through an inlined helper, '
+            'is written by myth_mutex_init_body (an object placed in recycled memory must not depend on its previous contents)')
+    vi = ctx.view(NATIVE, roots=['myth_mutex_init_body', 'myth_mutex_lock_body', 'myth_mutex_trylock_body', 'myth_mutex_unlock_body'], stops=('myth_queue_push', 'myth_queue_pop', 'myth_yield_ex_body', 'hr_gettime', 'fprintf', 'exit') + lib.SPIN_STOPS, flavour=fl)
+    n = lib.init_covers(ctx, 'C04.6', vi, 'myth_mutex_init_body', ['myth_mutex_lock_body', 'myth_mutex_trylock_body', 'myth_mutex_unlock_body'], 'mutex')
+    ctx.ob('C04.6', 'fields read by the operations enumerated', n >= 2, 'read set of the operations', loc='src/myth_sync_func.h', detail=str(n))
+    ctx.floor('C04.6', 4)
+
+
 def run(ctx):
     for fl in flavours(ctx):
         ctx.unit = fl
+        rule_init_complete(ctx, fl)
         v = ctx.view(NATIVE, roots=['myth_mutex_lock_body', 'myth_mutex_trylock_body', 'myth_mutex_timedlock_body',
                                     'myth_mutex_unlock_body', 'myth_block_on_queue', 'myth_mutex_clear_lock_bit'],
                      stops=(DEQ, 'myth_queue_push', 'myth_queue_pop', 'myth_yield_ex_body', 'hr_gettime',
@@ -318,6 +367,10 @@ def run(ctx):
 
 SYNC = 'src/myth_sync_func.h'
 MUTANTS = [
+    {'name': 'mutex_init forgets the state word', 'expect': 'C04.6',
+     'edits': [(SYNC, '  myth_sleep_queue_init(mutex->sleep_q);\n  mutex->state = 0;\n  if (attr) {', '  myth_sleep_queue_init(mutex->sleep_q);\n  if (attr) {')]},
+    {'name': 'lock polls a held mutex with a bound that is never reached (seed2 C04/m1)', 'expect': 'C04.2',
+     'edits': [(SYNC, "      /* lock bit set. indicate I am going to block on it.\n", "      if (failed < 64) { continue; }\n      /* lock bit set. indicate I am going to block on it.\n")]},
     {'name': 'trylock: plain store instead of CAS', 'expect': 'C04.1',
      'edits': [(SYNC, "    } else if (__sync_bool_compare_and_swap(&mutex->state, s, s + 1)) {\n      /* I set the lock bit */\n      return 0;",
                 "    } else if ((mutex->state = s + 1)) {\n      /* I set the lock bit */\n      return 0;")]},
